@@ -46,4 +46,30 @@ theorem mem_copyInto (s : St) (src dst : GName) (x : Quad) :
       subst hg
       rfl
 
+theorem known_dropGraph_subset (s : St) (g : GName) (n : Nat) (h : n ∈ (s.dropGraph g).known) : n ∈ s.known := by
+  unfold St.dropGraph at h
+  cases g with
+  | none => exact h
+  | some m => exact (mem_sremove.1 h).2
+
+theorem known_foldl_dropGraph (gs : List GName) : ∀ (s : St) (n : Nat),
+    n ∈ (gs.foldl St.dropGraph s).known ↔ n ∈ s.known ∧ some n ∉ gs := by
+  induction gs with
+  | nil => intro s n; simp
+  | cons g rest ih =>
+    intro s n
+    rw [List.foldl_cons, ih]
+    simp only [List.mem_cons, not_or]
+    cases g with
+    | none =>
+      simp only [St.dropGraph]
+      constructor
+      · rintro ⟨h1, h2⟩; exact ⟨h1, by simp, h2⟩
+      · rintro ⟨h1, _, h2⟩; exact ⟨h1, h2⟩
+    | some m =>
+      simp only [St.dropGraph, mem_sremove, Option.some.injEq]
+      constructor
+      · rintro ⟨⟨h1, h2⟩, h3⟩; exact ⟨h2, h1, h3⟩
+      · rintro ⟨h2, h1, h3⟩; exact ⟨⟨h1, h2⟩, h3⟩
+
 end RV.C10
